@@ -5,7 +5,7 @@
    meas_sound_b, text_meas_b, not_wrapped_b.  Only property theorems live here. *)
 From RichModel Require Import Prelude Cells Segments Ratio Frames Layout SpecLayout.
 From RichModel Require Table Wrap.
-From RichProofs Require Import LayoutP LayoutP2 LayoutP8 LayoutP9 LayoutP3 LayoutP4 LayoutP5 LayoutP6 LayoutP7.
+From RichProofs Require Import LayoutP LayoutP2 LayoutP8 LayoutP9 LayoutP10 LayoutP3 LayoutP4 LayoutP5 LayoutP6 LayoutP7.
 (* T2 tie: Measurement.normalize/with_maximum/clamp, Padding.unpack, Table padding arithmetic regenerated from /repo and proved equal to the hand model *)
 From RichProofs.bridge Require BridgeMeasure.
 
